@@ -9,9 +9,9 @@ from .c15 import ref_py
 
 ID = 'C16'
 LEVEL = 'model_checking'
-RULE = ('every atom text of length <= 3 [thorough: 4] over the 20 characters {a Z 0 _ space \' " LF CR # % ( ) , . : é 五 ﬁ(ligature) ％(full-width)} (quoted when '
+RULE = ('every atom text of length <= 3 [thorough: 4] over the 21 characters {a Z 0 _ space \' " LF CR # % ( ) , . : é 五 ﬁ(ligature) ％(full-width) and a character outside the BMP} (quoted when '
         'the lexer requires it, also quoted when it does not), and every term of depth <= 2 over {6 atom texts, 0 7 123, '
-        'f/1, g/2, [] [t] [t,u] [t|V] [t,u|V], _, named variables} - each literal compiled as a fact argument, as a head '
+        'f/1, g/2, zero-argument compounds f() and a quoted one, [] [t] [t,u] [t|V] [t,u|V], _, named variables} - each literal compiled as a fact argument, as a head '
         'argument of a rule, and as a body-goal argument, each batch also compiled from a file holding the same text (identical code required), then (1) read back through a query: structure equals the '
         'literal\'s term and to_python equals the reference value (name / int / list / (name,[args]) / None); (2) the '
         'same term built with atom/functor/listpair/makelist through the API is used as query argument: exactly one '
@@ -21,7 +21,7 @@ RULE = ('every atom text of length <= 3 [thorough: 4] over the 20 characters {a 
 ASSUMPTIONS = ['the generator starts from a TERM, prints it in the documented syntax (\' written as \\\', no other '
                'backslashes) and knows the value to_python must return (RefLiteral)',
                'to_python of partial lists is unspecified and observed structurally only']
-CHARS = ['a', 'Z', '0', '_', ' ', "'", '"', '\n', '\r', '#', '%', '(', ')', ',', '.', ':', 'é', '五', '\ufb01', '\uff05']
+CHARS = ['a', 'Z', '0', '_', ' ', "'", '"', '\n', '\r', '#', '%', '(', ')', ',', '.', ':', 'é', '五', '\ufb01', '\uff05', '\U0001f600']
 BATCH = 30
 
 
@@ -37,7 +37,7 @@ def atom_texts(maxlen):
 
 def base_terms():
     atoms = [A('a'), A('Z'), A('a b'), A("it's"), A('é五'), A('\n'), A('a_Z0')]
-    return atoms + [C(0), C(7), C(123), ('v', ('_', 0)), NIL, V('X')]
+    return atoms + [C(0), C(7), C(123), ('v', ('_', 0)), NIL, V('X'), F('f'), F('a b')]
 
 
 def depth1():
